@@ -25,6 +25,9 @@ ASSUMPTIONS = ["as C01/C08/C12"]
 CASE_TIMEOUT = {"quick": 40, "thorough": 120}
 
 
+RARE_CFG = 0.1     # share of cases run under rarely used option values (same results expected)
+
+
 def budget(tier):
     return 1500 if tier == "quick" else 15000
 
